@@ -42,7 +42,7 @@ import (
 //	"trailing"    n=2  trailing comma in a non-empty list / struct
 //
 // A Sym with Quoted set is always printed quoted (so '$ion_1_0' stays an ordinary symbol).
-var trivia = [...]string{"", " ", "\n", "\r\n", "\t", "/*c*/", "//c\n", "\x0b", "\x0c"}
+var trivia = [...]string{"", " ", "\n", "\r\n", "\t", "/*c*/", "//c\n", "\x0b", "\x0c", "\r", "//c\r", "//c\r\n", "/*\r*//**/"}
 
 type printer struct {
 	ch       refmodel.Chooser
@@ -351,16 +351,20 @@ func (p *printer) str(text string) {
 	pieces := make([]string, len(runes))
 	for i, r := range runes {
 		pieces[i] = escRune(r, q, form > 0)
+		if r == '\n' && form > 0 {
+			// a raw line break in a long string may be LF, CR LF or CR: all denote U+000A
+			pieces[i] = [...]string{"\n", "\r\n", "\r", `\n`}[p.dev("long.nl", 4)]
+		}
 	}
 	if len(runes) > 0 {
 		styles := escStyles(runes[0])
 		if k := p.dev("esc", len(styles)); k > 0 {
 			pieces[0] = styledEsc(runes[0], styles[k])
 		}
-		if form == 0 && p.dev("cont", 2) == 1 {
-			pieces[0] += "\\\n"
-		}
+		// an escaped line break (any of the three forms) is a continuation and denotes nothing
+		pieces[0] += [...]string{"", "\\\n", "\\\r\n", "\\\r"}[p.dev("cont", 4)]
 	}
+	joinCR(pieces)
 	switch form {
 	case 0:
 		p.tok(`"` + strings.Join(pieces, "") + `"`)
@@ -371,6 +375,16 @@ func (p *printer) str(text string) {
 		p.tok("'''" + strings.Join(pieces[:mid], "") + "''' '''" + strings.Join(pieces[mid:], "") + "'''")
 	}
 	p.prevLong = form > 0
+}
+
+// joinCR keeps a raw CR from fusing with a raw LF that follows it (CR LF is one line break):
+// such a CR is spelled CR LF itself.
+func joinCR(pieces []string) {
+	for i := 0; i+1 < len(pieces); i++ {
+		if strings.HasSuffix(pieces[i], "\r") && strings.HasPrefix(pieces[i+1], "\n") {
+			pieces[i] += "\n"
+		}
+	}
 }
 
 func bareOK(s string) bool {
@@ -435,12 +449,15 @@ func (p *printer) clob(b []byte) {
 		switch {
 		case c == '\\', c == '"' && form == 0, c == '\'' && form > 0:
 			pieces[i] = `\` + string(rune(c))
+		case c == '\n' && form > 0:
+			pieces[i] = [...]string{`\x0a`, "\n", "\r\n", "\r", `\n`}[p.dev("clob.nl", 5)]
 		case c < 0x20 || c >= 0x7f:
 			pieces[i] = fmt.Sprintf(`\x%02x`, c)
 		default:
 			pieces[i] = string(rune(c))
 		}
 	}
+	joinCR(pieces)
 	switch form {
 	case 0:
 		p.tok(`{{"` + strings.Join(pieces, "") + `"}}`)
